@@ -61,6 +61,12 @@ func JSONSweep(run *ev.Run, backend string, maxDocs int, stride int) {
 		if i%4 == 1 {
 			d["g"] = map[string]interface{}{"h": m.Clone(vals[(i*7)%len(vals)])}
 		}
+		if i%5 == 2 {
+			// field names that look like paths: a document built from a map keeps them as plain names, at the top
+			// level and below; the copy must have the same field set, not nested objects
+			d["v1.2"] = int64(i)
+			d["o"] = map[string]interface{}{"a.b": "x", ".": nil}
+		}
 		docs = append(docs, d)
 	}
 	// all subsets of size <= maxDocs (index combinations), thinned by stride for the largest size
